@@ -252,3 +252,14 @@ package txpool
 //@   ensures inDom(s.senders, sender) && inDom(s.senders[sender].txs, s.senders[sender].seq) ==> Pending(s.senders[sender].txs[s.senders[sender].seq])
 //@   ensures inDom(s.senders, sender) ==> (forall q uint64 :: q != s.senders[sender].seq && inDom(s.senders[sender].txs, q) ==> !Pending(s.senders[sender].txs[q]))
 //@   note after reset() the max-heap holds, for every sender touched by the pass, exactly its first pending transaction (sequence number == the sender's current sequence), whatever happened to the sender during the pass
+
+//@ func mainQueueScheduler.replace
+//@   props C20
+//@   requires s != nil && new != nil && old != nil && new != old && new.meta != nil && old.meta != nil && s.txs != nil && seqHeap != nil && seqHeap.txs != nil
+//@   requires new.sender == old.sender && new.seq == old.seq && TxOK(s, old, seqHeap) && new.maxHeapIndex == -1
+//@   ensures TxOK(s, new, seqHeap) && InPool(s, new)
+//@   ensures Pending(new) == old(Pending(old))
+//@   ensures old.maxHeapIndex == -1 && old.minHeapIndex == -1 && old.seqHeapIndex == -1
+//@   ensures len(seqHeap.seqHeap) == old(len(seqHeap.seqHeap))
+//@   note replacing a same-sequence transaction keeps the data-structure invariant for the new transaction: it sits in the min-heap, in the max-heap iff the old one was pending, and in the sequence heap of the sender heap that s.senders maps its sender to (so a later lookup, forward, removal or trim reaches it)
+
